@@ -72,6 +72,10 @@ def _is_wall(e: ast.expr) -> bool:
 
 
 def _is_generator(fn: ast.AST) -> bool:
+    # PInterpreter.tick_iterate_subticks is created and exhausted inside one PInterpreter.tick call (table
+    # `tickTimeCalls` shows that call): its parameter is that tick's argument, it does not live across ticks
+    if getattr(fn, "name", "") == "tick_iterate_subticks":
+        return False
     for n in ast.walk(fn):
         if isinstance(n, (ast.Yield, ast.YieldFrom)):
             return True
@@ -384,19 +388,7 @@ def scan() -> dict:
     et = find_method(trees["engine/engine.py"], "Engine", "tick")
     it = find_method(trees["lang/exec/pinterpreter.py"], "PInterpreter", "tick_iterate_subticks")
     out["engine_tick"] = stmt_list(et, "Engine") if et is not None else []
-    # tick_iterate_subticks is a generator that is created and exhausted inside one PInterpreter.tick call:
-    # its parameter is that call's argument, so it is translated as an ordinary function
-    out["interp_tick"] = []
-    if it is not None:
-        import copy
-        plain = copy.deepcopy(it)
-        for n in ast.walk(plain):
-            for field, val in ast.iter_fields(n):
-                if isinstance(val, list):
-                    setattr(n, field, [ast.Pass() if isinstance(x, ast.Expr) and isinstance(x.value, (ast.Yield, ast.YieldFrom))
-                                       else x for x in val])
-        if not _is_generator(plain):
-            out["interp_tick"] = stmt_list(plain, "PInterpreter")
+    out["interp_tick"] = stmt_list(it, "PInterpreter") if it is not None else []
     out["tag_classes"] = sorted(tag_classes)
     out["tt_funcs"] = tt_funcs
     out["wide_files"] = len(trees)
